@@ -10,12 +10,12 @@ META = dict(
          "segmentation; tunnels are transparent; for ALL kernel accept patterns kernel bytes ++ queued bytes = concatenation "
          "of the accepted frames; no model ever indexes outside a buffer, fails an assertion or spins (checked reads/writes, "
          "g_assert = Fault).  The models follow the repaired code (fix commits 509c336 4b5b4ef a4cf846 bc18d98 b519949 9934485 "
-         "fcd7bcb); all statements are unconditional except HTTP segmentation independence, which is proved for every stream of "
-         "at most 70000 bytes (the caller's buffer) and, beyond that, for every delivery in which the bytes following the proxy "
-         "reply in the read that completes it fit that buffer.  Each model is tied to /repo's working tree on every run by "
-         "differential execution against the REAL layer code over a scripted base socket / interposed kernel write, plus an "
-         "implementation-side oracle that states the property without the model (a regression of any of the seven fixes is "
-         "reported as VIOLATION with the failing input).",
+         "fcd7bcb + the http.c fix that hands out what is left in the ring buffer before reading the base socket again); ALL "
+         "statements are unconditional: HTTP segmentation independence holds for every stream, every chunking and every sequence "
+         "of caller receive-buffer sizes >= 1.  Each model is tied to /repo's working tree on every run by differential execution "
+         "against the REAL layer code over a scripted base socket / interposed kernel write, plus an implementation-side oracle "
+         "that states the property without the model (a regression of any of the eight fixes is reported as VIOLATION with the "
+         "failing input).",
     note="trusted: Coq kernel, extraction (ExtrOcamlBasic only), the hand-written models (tied by sampling, not proof), the "
          "harness (scripted base socket semantics, painting of uninitialised memory, interposed g_socket_send_message). The "
          "RFC 4571 framing inside agent.c belongs to C02 and is not part of this check.",
@@ -27,7 +27,9 @@ FINISH = dict(
              "code by differential execution (extracted OCaml via ExtrOcamlBasic only; Z kept inductive) on every run",
              "harness/scripted_sock.h: a scripted base NiceSocket (delivers min(requested, pending) bytes per read, accepts every send); "
              "readable event = append chunk, call recv_messages(1 message, one 70000-byte buffer) while bytes are pending, stop after an "
-             "error return / Fault / a call that consumed nothing",
+             "error return / Fault / a call that consumed nothing; for HTTP: one buffer of the size set by the case (c:<cap>, a heap "
+             "block of exactly that size), called until it would block (also after a call that delivered, although the base socket is "
+             "empty by then)",
              "uninitialised heap and stack bytes are painted with a per-case byte G (g_malloc/g_realloc interposed, stack painted before "
              "each call) and the model takes the same G; the kernel of tcp-bsd.c is an interposed g_socket_send_message driven by a script",
              "OCaml 4.13.1, gcc 12 + ASan/UBSan, the python generators/oracles in props/C17.py",
@@ -35,14 +37,15 @@ FINISH = dict(
              "n_buffers = -1, callers passing more than one NiceInputMessage; ICE-TCP RFC 4571 framing of agent.c (C02)"],
     rule="a layer case carries the chunked delivery and, after `|`, the one-chunk delivery of the same stream on a fresh instance; "
          "generators: every segmentation of short streams, random segmentations of long streams, frame headers up to the maximum "
-         "length, proxy-reply grammar (success, every error code, headers, Content-Length bodies, garbage), kernel accept counts "
+         "length, proxy-reply grammar (success, every error code, headers, Content-Length bodies, garbage), caller buffers of 1/2/4/16 bytes with payload following the proxy reply in the same "
+         "read, kernel accept counts "
          "0..len per write with would-block / hard errors, multi-buffer messages; non-trivial = the layer delivered or sent "
          "something or a partial write happened; distinct by case text",
     assumptions=["the base socket returns min(requested, available) bytes per read and never fails (scripted socket)",
                  "callers pass one NiceInputMessage per recv_messages call (what agent.c does)",
                  "C17_write_atomic quantifies over accept counts and EWOULDBLOCK; hard kernel errors drop queued frames (noted)",
-                 "HTTP: what follows the proxy reply in the read that completes it fits the caller's buffer (70000 bytes here); the "
-                 "repaired code still leaves the excess in the ring for good (needs a header line > 64 KiB; reproduced, notes/C17.md)"])
+                 "HTTP: within one readable event the caller calls recv_messages until it would block (what component_io_cb does); "
+                 "the caller's buffer holds at least 1 byte"])
 
 DRIVER = ["zutil_z.ml.in", "zutil_big.ml.in", "stream_driver.ml"]
 hx = lambda b: bytes(b).hex() if len(b) else "-"
@@ -653,8 +656,12 @@ def http_reply(rng, good=True, body=None, longline=0):
 def gen_http(rng, C, tier):
     Gs = [0xbe, 13, 48, 57, 32, 10, 0, 65]
 
-    def case(G, stream, cuts, hs, expect, kind, pre="", post=""):
-        body = "H %d%s %s%s | %s %s%s" % (G, pre, feeds(cut(stream, cuts)), post, pre.strip(), feeds([stream]), post)
+    def case(G, stream, cuts, hs, expect, kind, pre="", post="", caps=None):
+        # caps: sizes of the caller's receive buffer to choose from, independently for every readable event of the
+        # chunked delivery and for the one-chunk delivery (None = 70000 throughout)
+        fa = " ".join(("c:%d " % rng.choice(caps) if caps else "") + "f:" + hx(c) for c in cut(stream, cuts))
+        fb = ("c:%d " % rng.choice(caps) if caps else "") + feeds([stream])
+        body = "H %d%s %s%s | %s %s%s" % (G, pre, fa, post, pre.strip(), fb, post)
         C.add(body.replace("  ", " "), "http-" + kind)
         C.cases[-1] = (C.cases[-1][0].replace(" ", ":%s:%d " % (expect, hs), 1), C.cases[-1][1])
 
@@ -667,6 +674,25 @@ def gen_http(rng, C, tier):
             for cuts in seg_suite(rng, len(stream), len(rep), tier, heavy=False):
                 pre = " r:%s" % hx(tunnel_bytes(rng, 3)) if rng.random() < 0.3 else ""
                 case(rng.choice(Gs), stream, cuts, len(rep), expect, "all-segmentations", pre, " s:0102" if rng.random() < 0.2 else "")
+    # small caller buffers (what udp-turn-over-tcp on top of this layer passes: 2..4 header bytes at a time): bytes that
+    # follow the reply in the same read must come out over the following calls, whatever the chunking and the buffer sizes
+    small = (1, 2, 4, 16)
+    for rep, expect in basics[:3]:
+        for extra in ((1, 5, 18) if tier == "quick" else (1, 2, 5, 18, 40)):
+            stream = rep + tunnel_bytes(rng, extra)
+            for cuts in seg_suite(rng, len(stream), len(rep), tier, heavy=False):
+                pre = " r:%s" % hx(tunnel_bytes(rng, 3)) if rng.random() < 0.3 else ""
+                case(rng.choice(Gs), stream, cuts, len(rep), expect, "small-caller-buffer", pre, caps=small)
+    for _ in range(300 if tier == "quick" else 8000):
+        body = None
+        if rng.random() < 0.4:
+            body = bytes(rng.choice(b"abc\r\n 0123456789") for _ in range(rng.choice([0, 1, 3, 10, 40])))
+        rep, expect, has_cl = http_reply(rng, good=rng.random() < 0.85, body=body, longline=rng.choice([0, 0, 0, 1100]))
+        stream = rep + tunnel_bytes(rng, rng.choice([1, 2, 4, 5, 17, 60, 300, 3000]))
+        cuts = [c for c in rand_cuts(rng, len(stream), rng.choice(["one", "few", "many", "tiny"])) if c != len(rep) or rng.random() < 0.3]
+        case(rng.choice(Gs), stream, cuts, len(rep), expect, "small-caller-buffer-grammar",
+             " r:%s" % hx(tunnel_bytes(rng, 2)) if rng.random() < 0.3 else "",
+             caps=rng.choice([small, small, (1,), (2, 4), (3, 16, 100, 70000)]))
     # grammar of replies
     for _ in range(400 if tier == "quick" else 12000):
         body = None
